@@ -1,6 +1,6 @@
-use sdmmc_verif::engines::fsx;
+use sdmmc_verif::engines::{dirgen, fsx, pure};
 use sdmmc_verif::interp::Case;
-use sdmmc_verif::runner::{self, Acc, EvidenceIn, Tier};
+use sdmmc_verif::runner::{self, is_open_known, Acc, EvidenceIn, Failure, Outcome, Tier};
 use sdmmc_verif::*;
 use serde_json::json;
 
@@ -8,20 +8,34 @@ fn env_seed() -> u64 {
     std::env::var("VERIF_SEED").ok().and_then(|s| s.parse::<u64>().ok()).unwrap_or(1)
 }
 
-fn run_fsx(prop: &'static str, tier: Tier, level: &'static str) -> i32 {
-    let seed = env_seed();
+fn env_cases(default: u64) -> u64 {
+    std::env::var("VERIF_CASES").ok().and_then(|s| s.parse().ok()).unwrap_or(default)
+}
+
+const FS_ASSUMPTIONS: [&str; 2] = [
+    "block device model: single-block reads/writes are atomic and ordered",
+    "oracle side (formatter, reader, checker) is written from the FAT specification and self-tested against tests/disk.img.gz in setup",
+];
+
+/// fsx-engine pass for one property; returns the outcome (corpus replayed first).
+fn fsx_pass(prop: &'static str, tier: Tier, seed: u64, cases: u64) -> Outcome {
     let cfg = fsx::cfg_for(prop);
     let known = runner::load_known();
-    let cases = std::env::var("VERIF_CASES").ok().and_then(|s| s.parse().ok()).unwrap_or(fsx::quick_cases(prop, tier));
-    // regression corpus first
     let mut pre = Acc::default();
     let corpus_fail = runner::replay_corpus::<Case>(prop, &mut pre, &|c, a| fsx::run_case(&cfg, c, a, &known, false));
     let mut out = if let Some(v) = corpus_fail {
-        runner::Outcome { acc: Acc::default(), violation: Some(v), wall_s: 0.0 }
+        Outcome { acc: Acc::default(), violation: Some(v), wall_s: 0.0 }
     } else {
         runner::run_parallel(prop, seed, cases, || fsx::strategy(&cfg), |c: &Case, a| fsx::run_case(&cfg, c, a, &known, false))
     };
+    let _ = tier;
     out.acc.merge(pre);
+    out
+}
+
+fn run_fsx(prop: &'static str, tier: Tier, level: &'static str) -> i32 {
+    let seed = env_seed();
+    let out = fsx_pass(prop, tier, seed, env_cases(fsx::quick_cases(prop, tier)));
     let ev = EvidenceIn {
         prop,
         tier,
@@ -29,13 +43,125 @@ fn run_fsx(prop: &'static str, tier: Tier, level: &'static str) -> i32 {
         level,
         rule: fsx::rule_for(prop),
         exhaustive: None,
-        assumptions: vec![
-            "block device model: single-block reads/writes are atomic and ordered; no faults injected in this check".into(),
-            "oracle side (formatter, reader, checker) is written from the FAT specification and self-tested against tests/disk.img.gz in setup".into(),
-        ],
+        assumptions: FS_ASSUMPTIONS.iter().map(|s| s.to_string()).collect(),
         extra: json!({}),
     };
     runner::finish("fsx", &out, &ev)
+}
+
+fn dir_pass(prop: &'static str, seed: u64, cases: u64, c06: bool, c17: bool) -> Outcome {
+    let known = runner::load_known();
+    let test = |c: &dirgen::DirCase, a: &mut Acc| -> Result<(), Failure> {
+        match dirgen::run_case(c, a, c06, c17, false) {
+            Err(f) if is_open_known(&known, prop, &f.sig) => {
+                a.known(&f.sig);
+                Ok(())
+            }
+            r => r,
+        }
+    };
+    let mut pre = Acc::default();
+    let sub = format!("{}-dir", prop);
+    let corpus_fail = runner::replay_corpus::<dirgen::DirCase>(&sub, &mut pre, &|c, a| test(c, a));
+    let mut out = if let Some(v) = corpus_fail {
+        Outcome { acc: Acc::default(), violation: Some(v), wall_s: 0.0 }
+    } else {
+        runner::run_parallel(&sub, seed, cases, || dirgen::case_strategy(c17), test)
+    };
+    out.acc.merge(pre);
+    out
+}
+
+fn run_c06(tier: Tier) -> i32 {
+    let seed = env_seed();
+    let mut out = dir_pass("C06", seed, env_cases(tier.pick(12_000, 500_000)), true, false);
+    let mut engine = "dirgen";
+    if out.violation.is_none() {
+        let o2 = fsx_pass("C06", tier, seed, env_cases(tier.pick(8_000, 300_000)));
+        out.wall_s += o2.wall_s;
+        out.acc.merge(o2.acc);
+        if o2.violation.is_some() {
+            out.violation = o2.violation;
+            engine = "fsx";
+        }
+    }
+    let ev = EvidenceIn {
+        prop: "C06",
+        tier,
+        seed,
+        level: "exploration",
+        rule: "(a) byte-level generated directories (live/deleted/LFN/label/junk slots, 1-6 clusters, fragmented chains, FAT16 roots, FAT32 roots anywhere), listed and looked up through the crate and through the independent reader, before and after 0-15 create/delete/mkdir calls; (b) model-based histories with list/find/open_dir. non-trivial = directory spans >= 2 clusters or has a deleted slot or an LFN run, and >= 3 live entries; distinct by (geometry, item-kind sequence, number of ops)",
+        exhaustive: None,
+        assumptions: FS_ASSUMPTIONS.iter().map(|s| s.to_string()).collect(),
+        extra: json!({}),
+    };
+    runner::finish(engine, &out, &ev)
+}
+
+fn run_c17(tier: Tier) -> i32 {
+    let seed = env_seed();
+    let known = runner::load_known();
+    let t0 = std::time::Instant::now();
+    let mut acc = Acc::default();
+    let mut engine = "lfnbuf";
+    let mut violation = runner::replay_corpus::<pure::LfnBufCase>("C17", &mut acc, &|c, _a| pure::lfnbuf_check(c));
+    if violation.is_none() {
+        violation = pure::c17a_boundary_enumeration(&known, &mut acc);
+    }
+    let mut out = Outcome { acc, violation, wall_s: 0.0 };
+    if out.violation.is_none() {
+        let o = runner::run_parallel(
+            "C17",
+            seed,
+            env_cases(tier.pick(60_000, 3_000_000)),
+            pure::lfnbuf_case_strategy,
+            |c: &pure::LfnBufCase, a: &mut Acc| match pure::lfnbuf_check(c) {
+                Err(f) if is_open_known(&known, "C17", &f.sig) => {
+                    a.known(&f.sig);
+                    Ok(())
+                }
+                Err(f) => Err(f),
+                Ok(()) => {
+                    let need = pure::lfnbuf_expected(&c.frags).len() as i64;
+                    let near = (need - c.size as i64).abs() <= 4;
+                    let sur_at_boundary = c.frags.iter().any(|f| (0xD800..0xE000).contains(&f[0]) || (0xD800..0xE000).contains(&f[12]));
+                    a.class(if c.size as i64 >= need { "buf:fits" } else { "buf:too-small" });
+                    if sur_at_boundary {
+                        a.class("surrogate-at-fragment-boundary");
+                    }
+                    if near || sur_at_boundary {
+                        a.shape(&(&c.frags, c.size));
+                        if a.samples.len() < 2 {
+                            a.sample(json!({"fragments": c.frags.len(), "buffer": c.size, "needed": need, "first_fragment": c.frags[0]}));
+                        }
+                    }
+                    Ok(())
+                }
+            },
+        );
+        out.acc.merge(o.acc);
+        out.violation = o.violation;
+    }
+    if out.violation.is_none() {
+        let o = dir_pass("C17", seed, env_cases(tier.pick(12_000, 500_000)), false, true);
+        out.acc.merge(o.acc);
+        if o.violation.is_some() {
+            out.violation = o.violation;
+            engine = "dirgen";
+        }
+    }
+    out.wall_s = t0.elapsed().as_secs_f64();
+    let ev = EvidenceIn {
+        prop: "C17",
+        tier,
+        seed,
+        level: "exploration",
+        rule: "(a) LfnBuffer: all 8^4 code-unit class combinations at a fragment boundary x 3 buffer sizes, plus proptest fragment sequences (1-20 fragments over 9 unit classes, buffer 0..=780 biased to +-4 of the need) against String::from_utf16_lossy; non-trivial = surrogate at a fragment boundary or buffer within 4 bytes of the need. (b) generated directories with well-formed and broken runs (wrong checksum, gap, duplicate, missing first/last, reordered, checksum twin, orphan) listed with iterate_dir_lfn; non-trivial = directory contains a broken run or a checksum twin. distinct by hash of the case shape",
+        exhaustive: None,
+        assumptions: vec!["don't-care classes (20-fragment runs, fragments with differing checksums, deleted slot between run and short entry, overflowed buffer) only require valid UTF-8 and no panic".into()],
+        extra: json!({}),
+    };
+    runner::finish(engine, &out, &ev)
 }
 
 fn replay(path: &str) -> i32 {
@@ -44,26 +170,42 @@ fn replay(path: &str) -> i32 {
     let known = runner::load_known();
     println!("replaying {} ({}): recorded signature {}", rf.property, rf.engine, rf.signature);
     let prop: &'static str = Box::leak(rf.property.clone().into_boxed_str());
-    match rf.engine.as_str() {
+    let mut acc = Acc::default();
+    let r: Result<(), Failure> = match rf.engine.as_str() {
         "fsx" => {
             let case: Case = serde_json::from_value(rf.case).expect("case does not parse");
-            let cfg = fsx::cfg_for(prop);
-            let mut acc = Acc::default();
-            match fsx::run_case(&cfg, &case, &mut acc, &known, true) {
-                Ok(()) => {
-                    println!("replay: property held");
-                    0
-                }
-                Err(f) => {
-                    println!("{}: {}", f.sig, f.detail);
-                    println!("VIOLATION property={} replay={}", prop, path);
-                    1
-                }
-            }
+            fsx::run_case(&fsx::cfg_for(prop), &case, &mut acc, &known, true)
+        }
+        "dirgen" => {
+            let case: dirgen::DirCase = serde_json::from_value(rf.case).expect("case does not parse");
+            dirgen::run_case(&case, &mut acc, prop == "C06", prop == "C17", true)
+        }
+        "lfnbuf" => {
+            let case: pure::LfnBufCase = serde_json::from_value(rf.case).expect("case does not parse");
+            pure::lfnbuf_check(&case)
+        }
+        "codec" => {
+            let case: pure::CodecCase = serde_json::from_value(rf.case).expect("case does not parse");
+            pure::replay_codec(&case)
+        }
+        "crc" => {
+            let case: pure::CrcCase = serde_json::from_value(rf.case).expect("case does not parse");
+            pure::replay_crc(&case)
         }
         other => {
             eprintln!("unknown engine {}", other);
-            2
+            return 2;
+        }
+    };
+    match r {
+        Ok(()) => {
+            println!("replay: property held");
+            0
+        }
+        Err(f) => {
+            println!("{}: {}", f.sig, f.detail);
+            println!("VIOLATION property={} replay={}", prop, path);
+            1
         }
     }
 }
@@ -73,7 +215,6 @@ fn main() {
     runner::install_quiet_panic_hook();
     let code = match args.get(1).map(|s| s.as_str()) {
         Some("selftest") => selftest::run(300),
-        Some("debug1") => { debug_one(); 0 }
         Some("replay") => replay(&args[2]),
         Some("check") => {
             let prop = args[2].as_str();
@@ -87,8 +228,12 @@ fn main() {
                 "C03" => run_fsx("C03", tier, "exploration"),
                 "C04" => run_fsx("C04", tier, "exploration"),
                 "C05" => run_fsx("C05", tier, "exploration"),
+                "C06" => run_c06(tier),
                 "C07" => run_fsx("C07", tier, "exploration"),
                 "C16" => run_fsx("C16", tier, "exploration"),
+                "C17" => run_c17(tier),
+                "C18" => pure::run_c18(tier, env_seed()),
+                "C19" => pure::run_c19(tier, env_seed()),
                 _ => {
                     eprintln!("unknown property {}", prop);
                     2
@@ -101,19 +246,4 @@ fn main() {
         }
     };
     std::process::exit(code);
-}
-#[allow(dead_code)]
-pub fn debug_one() {
-    use proptest::strategy::{Strategy, ValueTree};
-    use proptest::test_runner::{Config, RngAlgorithm, TestRng, TestRunner};
-    let cfg = fsx::cfg_for("C01");
-    let mut runner = TestRunner::new_with_rng(Config::default(), TestRng::from_seed(RngAlgorithm::ChaCha, &[3u8; 32]));
-    eprintln!("building strategy");
-    let s = fsx::strategy(&cfg);
-    eprintln!("generating");
-    let c = s.new_tree(&mut runner).unwrap().current();
-    eprintln!("generated {} steps", c.steps.len());
-    let mut acc = Acc::default();
-    let r = fsx::run_case(&cfg, &c, &mut acc, &[], true);
-    eprintln!("{:?}", r.is_ok());
 }
